@@ -718,11 +718,24 @@ func (rn *runner) replay(te *tenv, b *behIn) {
 	var log []*sent
 	pipe := rn.pipelined && len(b.Steps) > 1 && b.id%2 == 0
 	if pipe {
+		// (the client decodes every answer with the compression it ends up with, so a behaviour that switches between
+		// two compressions is not pipelined)
+		comps := map[string]bool{}
 		for _, st := range b.Steps {
 			o, err := parseOutcome(st.O)
 			if err != nil || len(st.A) > 0 || o.Alive != "yes" || o.Ops["*"] {
 				pipe = false
+				break
 			}
+			if o.Codec == "lz4" || o.Codec == "snappy" {
+				comps[o.Codec] = true
+			}
+			if c0 := stateCodec(st.S); c0 == "lz4" || c0 == "snappy" {
+				comps[c0] = true
+			}
+		}
+		if len(comps) > 1 {
+			pipe = false
 		}
 	}
 	pend := make([][]byte, nconn)
